@@ -142,6 +142,25 @@ def decICells : Nat → Bytes → Option (List ICell × Bytes)
       | none => none
       | some (cs, rest) => some (c :: cs, rest)
 
+/-- how many cells decode from the front of the buffer (at most `n`) -/
+def countLeafCells : Nat → Bytes → Nat
+  | 0, _ => 0
+  | n+1, bs => match decLeafCell bs with
+    | none => 0
+    | some (_, bs') => 1 + countLeafCells n bs'
+
+def countICells : Nat → Bytes → Nat
+  | 0, _ => 0
+  | n+1, bs => match decICell bs with
+    | none => 0
+    | some (_, bs') => 1 + countICells n bs'
+
+/-- The decoders store each cell as soon as it is read (`cells[offsets[i]] = cell`): when the cells
+run out before `count` of them were read, an offset beyond the slice among the cells already read
+has panicked first; otherwise the read error is returned. -/
+def shortCells (offs : List Nat) (count decoded : Nat) : Dec :=
+  if (offs.take decoded).any (fun o => decide (count ≤ o)) then .panic else .err
+
 /-- `cells[offsets[i]] = cell_i` followed by reading the cells back in offset order.
 `none` = index out of range.  For the identity array this is the cell list itself. -/
 def place {α : Type} (offs : List Nat) (cs : List α) : Option (List α) :=
@@ -190,7 +209,7 @@ def decodeLeaf (bs : Bytes) : Dec :=
   | none => .err
   | some (free, b9) =>
   match decLeafCells count (skipN free b9) with
-  | none => .err
+  | none => shortCells offs count (countLeafCells count (skipN free b9))
   | some (cs, _) =>
   match place offs cs with
   | none => .panic
@@ -220,7 +239,7 @@ def decodeInternal (bs : Bytes) : Dec :=
   | none => .err
   | some (free, b6) =>
   match decICells count (skipN free b6) with
-  | none => .err
+  | none => shortCells offs count (countICells count (skipN free b6))
   | some (cs, _) =>
   match place offs cs with
   | none => .panic
